@@ -4,9 +4,17 @@ Semantic: string weights of the REAL results against the proved path-sum oracle 
 strings; determinism / ε-freeness / single initial state, stochasticity of pushed machines and
 usefulness of kept states decided on the real outputs.  Structural: mirror models `push` (given the
 implementation's backward weights), `trim`, `trimVals` (theorems push_preserves, push_stochastic,
-wfsa_trim_Pk, wfsa_trim_useful)."""
+wfsa_trim_Pk, wfsa_trim_useful), and the EXACT legs (`_xleg`): the subset construction `determinizeRun`
+(`Model/Det.lean`; theorems det_preserves, det_deterministic, minDet_preserves) run by the driver over ℚ on the machine
+`A = m.epsremove.push` that the real `determinize` works on, compared with the real `D = m.determinize` as weighted automata
+whose states are weighted subsets — and every stage of `min_det = reverse.determinize.trim.reverse.determinize.trim`
+(models `reverse`, `determinizeRun`, `trim` on the real intermediate machines, power states as names).
+Two legs: the library's own `Float` semiring fed with Fractions (floats creep in through `Float.star(0) == 1.0`: compared
+after a canonical breadth-first renumbering with tolerance 1e-9) and the harness's `Exact` plain-number semiring
+(`harness/exactsemi.py`: the real code on Fractions throughout: exact equality of the arc / final-weight multisets)."""
 import hashlib
 import json
+import math
 from fractions import Fraction
 
 from harness import common, gen, oracles
@@ -43,7 +51,288 @@ def impl(case):
         machine("determinize", lambda: mk().determinize)
         if not case.get("no_min_det"):   # reversal of a cyclic machine is non-deterministic and cyclic: termination not guaranteed
             machine("min_det", lambda: mk().min_det)
+        out["xdet"] = {leg: _xleg(case["wfsa"], leg, not case.get("no_min_det")) for leg in XLEGS}
     return out
+
+
+# ----------------------------------------------------------------------------- exact legs (worker side)
+XLEGS = ("Exact", "Float")
+
+
+def _xw(w, flag):
+    """a weight of the real machine -> the exact rational it denotes (string); flag[0] := False if it is a float"""
+    if hasattr(w, "item") and hasattr(w, "dtype"):
+        w = w.item()
+    if isinstance(w, float):
+        flag[0] = False
+        if math.isinf(w) or math.isnan(w):
+            return repr(w)
+        return common.frac_str(Fraction(w))
+    return common.frac_str(w)
+
+
+def _xstate(q, flag):
+    """state name -> JSON; a power state (frozendict {state: weight}) -> the sorted list of its [state, weight] pairs"""
+    if hasattr(q, "items") and not isinstance(q, (str, bytes)):
+        return sorted(([_xstate(k, flag), _xw(v, flag)] for k, v in q.items()), key=common.symkey)
+    return common.enc_sym(q)
+
+
+def _xmachine(m):
+    flag = [True]
+    d = {"start": [[_xstate(q, flag), _xw(w, flag)] for q, w in m.start.items()],
+         "stop": [[_xstate(q, flag), _xw(w, flag)] for q, w in m.stop.items()],
+         "arcs": [[_xstate(i, flag), common.enc_sym(a), _xstate(j, flag), _xw(w, flag)] for i, a, j, w in m.arcs()]}
+    d["exact"] = flag[0]
+    return d
+
+
+def _xleg(desc, R, do_min):
+    """the real machines around `determinize` (and every stage of `min_det`), weights as the exact rationals they denote"""
+    out = {}
+
+    def step(name, f):
+        try:
+            m = f()
+            out[name] = _xmachine(m)
+            return m
+        except ZeroDivisionError as e:
+            out[name] = {"exc": "ZeroDivision", "msg": str(e)[:100]}
+        except Exception as e:  # noqa
+            out[name] = {"exc": type(e).__name__, "msg": str(e)[:200]}
+        return None
+
+    def stage(m, sfx):
+        step("A" + sfx, lambda: m.epsremove.push)      # the very object `determinize` works on (cached properties)
+        return step("D" + sfx, lambda: m.determinize)
+
+    def mk():
+        return common.mk_wfsa(desc, R, "field", exact=True)
+    m = mk()
+    out["M"] = _xmachine(m)
+    stage(m, "")
+    if _is_m(out.get("A")):
+        step("AT", lambda: m.epsremove.push.trim)      # `trim` on a machine with explicit zero entries (push writes start[i] * V[i] for every live i)
+    if do_min:
+        R1 = step("R1", lambda: mk().reverse)
+        D1 = stage(R1, "1") if R1 is not None else None
+        T1 = step("T1", lambda: D1.trim) if D1 is not None else None
+        R2 = step("R2", lambda: T1.reverse) if T1 is not None else None
+        D2 = stage(R2, "2") if R2 is not None else None
+        if D2 is not None:
+            step("T2", lambda: D2.trim)
+        step("MD", lambda: mk().min_det)
+    return out
+
+
+# ----------------------------------------------------------------------------- exact legs (harness side)
+def _is_m(x):
+    return isinstance(x, dict) and "arcs" in x
+
+
+def _strip(x):
+    return {k: x[k] for k in ("start", "stop", "arcs")}
+
+
+def _xstates(x):
+    return {common.symkey(q) for q, _ in x["start"] + x["stop"]} | {common.symkey(e[k]) for e in x["arcs"] for k in (0, 2)}
+
+
+def _sort_power(r):
+    """model output of `determinize`: the power states come in the model's order (`canonChart`); a frozendict has none"""
+    def s(Q):
+        return sorted(Q, key=common.symkey)
+    return {"start": [[s(q), w] for q, w in r["start"]], "stop": [[s(q), w] for q, w in r["stop"]],
+            "arcs": [[s(i), a, s(j), w] for i, a, j, w in r["arcs"]]}
+
+
+def _accd(d, keep_zeros):
+    """the three charts of a machine: repeated keys accumulate (add_I / add_F / add_arc)"""
+    out = {}
+    for part, kf in (("start", lambda e: common.symkey(e[0])), ("stop", lambda e: common.symkey(e[0])),
+                     ("arcs", lambda e: common.symkey(e[:-1]))):
+        acc = {}
+        for e in d[part]:
+            acc[kf(e)] = acc.get(kf(e), 0) + Fraction(e[-1])
+        out[part] = acc if keep_zeros else {k: v for k, v in acc.items() if v != 0}
+    return out
+
+
+def _weq(a, b, exact):
+    return a == b if exact else common.close(a, b, 1e-9, 1e-12)
+
+
+def _cmp_named(model, got, exact, keep_zeros):
+    """same machine with the same state names: the charts agree key by key (exactly / within 1e-9)"""
+    ca, cb = _accd(model, keep_zeros), _accd(got, keep_zeros)
+    for part in ("start", "stop", "arcs"):
+        da, db = ca[part], cb[part]
+        if set(da) != set(db):
+            return f"{part}: only-model {sorted(set(da) - set(db))[:3]} only-impl {sorted(set(db) - set(da))[:3]}"
+        for k in da:
+            if not _weq(da[k], db[k], exact):
+                return f"{part} {k}: model {da[k]} impl {db[k]}"
+    return ""
+
+
+def _det_tables(d):
+    """a machine with ONE initial power state and at most one arc per (state, symbol): (q0, w0, {(P, a): (Q, w)}, {P: final weight})"""
+    c = _accd(d, True)
+    if len(c["start"]) != 1:
+        return None, f"{len(c['start'])} initial states"
+    out = {}
+    for k, w in c["arcs"].items():
+        i, a, j = json.loads(k)
+        key = (common.symkey(i), common.symkey(a))
+        if key in out:
+            return None, f"two arcs for {key[0]} {key[1]}"
+        out[key] = (common.symkey(j), w)
+    (q0, w0), = c["start"].items()
+    return (q0, w0, out, c["stop"]), ""
+
+
+def _cmp_bfs(model, got, exact):
+    """the two deterministic machines explored in parallel, breadth-first from their initial power states (symbols in a fixed
+    order): the canonical renumbering of the power states.  Corresponding states must hold the same weighted subset, the same
+    final weight and, symbol by symbol, arcs of the same weight into corresponding states; every state of either machine must
+    be reached.  Exact arithmetic: the correspondence must be one-to-one.  Floats: rounding can make the real code keep apart
+    subsets that differ in the last bit ({q: 1.0} / {q: 0.9999999999999999}) where ℚ has one state — several real states may
+    correspond to one model state (counted as `float_split`), never the other way round.  Returns (why, split?)"""
+    ta, why = _det_tables(model)
+    if ta is None:
+        return "model: " + why, False
+    tb, why = _det_tables(got)
+    if tb is None:
+        return "impl: " + why, False
+    (qa, wa, outa, stopa), (qb, wb, outb, stopb) = ta, tb
+    if not _weq(wa, wb, exact):
+        return f"start weight: model {wa} impl {wb}", False
+    syms = sorted({a for _, a in outa} | {a for _, a in outb})
+    pairs, order = {(qa, qb)}, [(qa, qb)]
+    for Pa, Pb in order:
+        n = order.index((Pa, Pb))
+        Qa, Qb = json.loads(Pa), json.loads(Pb)
+        if [common.symkey(q) for q, _ in Qa] != [common.symkey(q) for q, _ in Qb] or \
+                not all(_weq(Fraction(u[1]), Fraction(v[1]), exact) for u, v in zip(Qa, Qb)):
+            return f"power state #{n}: model {Pa} impl {Pb}", False
+        if (Pa in stopa) != (Pb in stopb) or (Pa in stopa and not _weq(stopa[Pa], stopb[Pb], exact)):
+            return f"final weight of #{n} {Pb}: model {stopa.get(Pa)} impl {stopb.get(Pb)}", False
+        for a in syms:
+            ea, eb = outa.get((Pa, a)), outb.get((Pb, a))
+            if ea is None and eb is None:
+                continue
+            if ea is None or eb is None or not _weq(ea[1], eb[1], exact):
+                return f"arc from #{n} {Pb} on {a}: model {ea} impl {eb}", False
+            if (ea[0], eb[0]) not in pairs:
+                pairs.add((ea[0], eb[0]))
+                order.append((ea[0], eb[0]))
+    ma, mb = {}, {}
+    for Pa, Pb in order:
+        ma.setdefault(Pa, set()).add(Pb)
+        mb.setdefault(Pb, set()).add(Pa)
+    if _xstates(model) - set(ma):
+        return f"model states not reachable from the initial one: {sorted(_xstates(model) - set(ma))[:3]}", False
+    if _xstates(got) - set(mb):
+        return f"impl states not reachable from the initial one: {sorted(_xstates(got) - set(mb))[:3]}", False
+    if any(len(v) > 1 for v in mb.values()):
+        return f"one impl power state corresponds to several model states: {[(k, sorted(v)) for k, v in mb.items() if len(v) > 1][:2]}", False
+    split = any(len(v) > 1 for v in ma.values())
+    if split and exact:
+        return f"model has {len(ma)} power states, impl {len(mb)}: {[(k, sorted(v)) for k, v in ma.items() if len(v) > 1][:2]}", True
+    return "", split
+
+
+def _xjobs(x):
+    """the model evaluations that tie one leg's real machines: (kind, driver op, real result, input machine)"""
+    jobs = []
+
+    def det(sfx):
+        A, D = x.get("A" + sfx), x.get("D" + sfx)
+        if _is_m(A) and isinstance(D, dict):
+            fuel = len(_xstates(D)) + 8 if _is_m(D) else 400
+            jobs.append(("determinize" + sfx, {"op": "wfsa_op2", "R": "Float", "name": "determinize", "a": _strip(A), "fuel": fuel}, D, A))
+
+    def simple(kind, op, name, src, dst):
+        if _is_m(x.get(src)) and _is_m(x.get(dst)):
+            jobs.append((kind, {"op": op, "R": "Float", "name": name, "a": _strip(x[src])}, x[dst], x[src]))
+    det("")
+    simple("push_trim", "wfsa_op2", "trim", "A", "AT")
+    simple("min_det:reverse1", "wfsa_op", "reverse", "M", "R1")
+    det("1")
+    simple("min_det:trim1", "wfsa_op2", "trim", "D1", "T1")
+    simple("min_det:reverse2", "wfsa_op", "reverse", "T1", "R2")
+    det("2")
+    simple("min_det:trim2", "wfsa_op2", "trim", "D2", "T2")
+    return jobs
+
+
+def _xcheck(ctx, cases, impl_res, hashseeds, structural, xs):
+    """run the jobs of every case x hash seed x leg through the driver and compare; returns (evaluations, traces)"""
+    ops, meta = [], []
+    for c in cases:
+        for hs in hashseeds:
+            res = impl_res[hs].get(c["id"]) or {}
+            for leg, x in (res.get("xdet") or {}).items():
+                st = xs.setdefault(leg, {"determinize_compared": 0, "exact": 0, "tolerance": 0, "zero_division_agreed": 0,
+                                         "float_split": 0, "push_trim_compared": 0, "min_det_stages_compared": 0, "min_det_chain_agreed": 0, "not_comparable": 0, "disagreements": 0})
+                if any(isinstance(v, dict) and any(isinstance(t, str) and t.strip("-") in ("inf", "nan") for e in v.get("arcs", []) + v.get("start", []) + v.get("stop", []) for t in e[-1:]) for v in x.values()):
+                    st["not_comparable"] += 1     # an infinite weight: outside ℚ
+                    continue
+                for kind, op, got, src in _xjobs(x):
+                    ops.append(op)
+                    meta.append((c, hs, leg, kind, got, src))
+                if _is_m(x.get("T2")) and _is_m(x.get("MD")):
+                    why = _cmp_named(x["T2"], x["MD"], x["T2"]["exact"] and x["MD"]["exact"], True)
+                    if why:
+                        st["disagreements"] += 1
+                        structural.append({"op": f"min_det[{leg}]", "what": "min_det differs from reverse.determinize.trim.reverse.determinize.trim: " + why,
+                                           "impl": x["MD"], "input": c["wfsa"], "hashseed": hs})
+                    else:
+                        st["min_det_chain_agreed"] += 1
+    evaluations = traces = 0
+    for (c, hs, leg, kind, got, src), r in zip(meta, ctx["lean"](ops)):
+        st = xs[leg]
+        evaluations += 1
+        if "error" in r:
+            raise common.DriverError(r["error"])
+        why = ""
+        if kind.startswith("determinize"):
+            exact = bool(src.get("exact")) and (not _is_m(got) or bool(got.get("exact")))
+            if not _is_m(got):
+                if got.get("exc") == "ZeroDivision":
+                    if r["outcome"] == "zeroDiv":
+                        st["zero_division_agreed"] += 1
+                    elif exact or r["outcome"] != "done":
+                        why = f"impl raises ZeroDivisionError, model outcome {r['outcome']}"
+                    else:
+                        st["not_comparable"] += 1    # a float sum that cancels to 0.0 where the exact sum does not
+                else:
+                    st["not_comparable"] += 1
+                    continue
+            elif r["outcome"] != "done":
+                why = f"impl returns a machine, model outcome {r['outcome']} (fuel {len(_xstates(got)) + 8})"
+            else:
+                st["determinize_compared"] += 1
+                st["exact" if exact else "tolerance"] += 1
+                rm = _sort_power(r)
+                # exact arithmetic: the same weighted subsets, the same charts (zero entries included), to the last digit;
+                # and in both cases: equal after the canonical renumbering of the power states
+                why = _cmp_named(rm, got, True, True) if exact else ""
+                if not why:
+                    why, split = _cmp_bfs(rm, got, exact)
+                    st["float_split"] += bool(split and not why)
+        else:
+            st["push_trim_compared" if kind == "push_trim" else "min_det_stages_compared"] += 1
+            # `reverse` reads `self.I` / `self.F` (non-zero entries) while the model keeps the zero ones: compare as charts with default zero
+            # `_trim(active)` writes start[i] and stop[i] for EVERY active state, zero or not, and so does the model: zero entries compared too
+            why = _cmp_named(r, got, bool(src.get("exact")) and bool(got.get("exact")), "trim" in kind)
+        if why:
+            st["disagreements"] += 1
+            structural.append({"op": f"{kind}[{leg}]", "what": why, "model": r, "impl": got, "input": _strip(src) if _is_m(src) else src,
+                               "case": c["wfsa"], "hashseed": hs})
+        else:
+            traces += 1
+    return evaluations, traces
 
 
 def _det_cyclic(rng):
@@ -90,9 +379,13 @@ def make_case(rng, i, tier):
 def corpus():
     f8 = {"start": [[0, "1"]], "stop": [[1, "1"]], "arcs": [[0, "a", 1, "1/2"], [2, "b", 1, "1/2"]], "syms": ["a", "b"]}
     neg = {"start": [[0, "1"]], "stop": [[1, "1"], [2, "-1"]], "arcs": [[0, "a", 1, "1"], [0, "b", 2, "1"]], "syms": ["a", "b"]}
+    # the pushed machine is the machine itself (all potentials 1); the subset reached on `a` is {1: 1, 2: -1}: mass zero with
+    # keys, so `determinize` raises ZeroDivisionError — and the model must answer `zeroDiv`
+    zdiv = {"start": [[0, "1"]], "stop": [[1, "1"], [2, "1"], [3, "1"]], "arcs": [[0, "a", 1, "1"], [0, "a", 2, "-1"], [0, "b", 3, "1"]], "syms": ["a", "b"]}
     xs = gen.all_strings(["a", "b"], 2)
     return [{"shape": "corpus_F8", "wfsa": f8, "xs": xs, "det": True},
-            {"shape": "corpus_negative_cancellation", "wfsa": neg, "xs": xs, "det": False}]
+            {"shape": "corpus_negative_cancellation", "wfsa": neg, "xs": xs, "det": False},
+            {"shape": "corpus_zero_mass_subset", "wfsa": zdiv, "xs": xs, "det": True, "no_min_det": True}]
 
 
 def _useful_states(desc):
@@ -161,6 +454,11 @@ def run(ctx):
             structural.append({"op": nm, "what": why, "model": r, "impl": got, "input": cases[k]["wfsa"]})
         else:
             traces += 1
+    xstats = {}
+    ev, tr = _xcheck(ctx, cases, impl_res, hashseeds, structural, xstats)
+    evaluations += ev
+    traces += tr
+    stats["exact_legs"] = xstats
     for k, (c, (vals, conv, deep)) in enumerate(zip(cases, base)):
         shapes[c["shape"]] = shapes.get(c["shape"], 0) + 1
         nz = sum(1 for o in vals if o != 0)
@@ -244,10 +542,15 @@ def run(ctx):
     return {
         "evaluations": evaluations, "distinct_nontrivial": len(nontrivial),
         "rule": "seeded acyclic / ε-acyclic real-weighted automata (positive dyadic weights, shared prefixes, several initial states, dead and unreachable states) "
-                "x all strings ≤ 3; non-trivial = distinct automata with an accepted and a rejected string",
+                "x all strings ≤ 3; non-trivial = distinct automata with an accepted and a rejected string; "
+                "exact legs: every case x hash seed x {library Float fed with Fractions, harness Exact semiring}: model `determinizeRun` over ℚ on the real "
+                "epsremove.push machine vs the real determinize (and each stage of min_det, and trim after push), see extra.stats.exact_legs",
         "samples": samples, "traces": traces, "semantic": semantic, "structural": structural,
         "extra": {"shape_histogram": shapes, "hashseeds": hashseeds, "stats": stats, "cases": len(cases)},
-        "assumptions": ["determinize raising ZeroDivisionError is tolerated only for inputs with weights of both signs (cancelling subset mass); for positive weights it is a violation"],
+        "assumptions": ["determinize raising ZeroDivisionError is tolerated only for inputs with weights of both signs (cancelling subset mass); for positive weights it is a violation",
+                        "exact legs: over floats the real subset construction may keep apart weighted subsets that differ in the last bit where the model over ℚ has one power state "
+                        "(several real states then correspond to one model state: extra.stats.exact_legs.Float.float_split); over the Exact semiring the correspondence must be one-to-one and exact"],
+        "trusted": ["harness/exactsemi.py (Fraction constants in the library's plain-number semiring protocol)"],
     }
 
 
